@@ -405,8 +405,8 @@ def flatten_body(c):
 
 
 PROP = Prop("C12", [
-    Test("programs", program_body, quick=2500, thorough=40000, shard_size=250),
-    Test("flatten", flatten_body, quick=800, thorough=10000, shard_size=200),
+    Test("programs", program_body, quick=8000, thorough=40000, shard_size=250),
+    Test("flatten", flatten_body, quick=2500, thorough=10000, shard_size=200),
 ], RULE, assumptions=[
     "leaf routing computed by running the same access program on plain Python containers of integer ids",
 ])
